@@ -109,7 +109,7 @@ ITEMS += [
                         && final(self).current_map_depth == old(self).current_map_depth && final(self).depth == old(self).depth
                         && final(self).compact_list_indent == old(self).compact_list_indent && final(self).last_value_was_block == old(self).last_value_was_block
                         && final(self).indent_step == old(self).indent_step && final(self).doc_started == old(self).doc_started && final(self).in_flow == old(self).in_flow
-                        && final(self).inline_map_after_dash == old(self).inline_map_after_dash''')],
+                        && final(self).inline_map_after_dash == old(self).inline_map_after_dash && final(self).quote_all == old(self).quote_all && final(self).yaml_12 == old(self).yaml_12''')],
          canaries=['value']),
     dict(src=SR, path='struct SeqSer'),
     dict(src=SR, path='enum TupleKind', derive='#[derive(Clone, Copy, PartialEq, Eq)]'),
@@ -166,7 +166,7 @@ def _replace_item(path, new):
 _LAYOUT_FRAME = '''final(self).pending_anchor_id == old(self).pending_anchor_id && final(self).pending_inline_map == old(self).pending_inline_map
                         && final(self).after_dash_depth == old(self).after_dash_depth && final(self).current_map_depth == old(self).current_map_depth
                         && final(self).depth == old(self).depth && final(self).indent_step == old(self).indent_step && final(self).in_flow == old(self).in_flow
-                        && final(self).inline_map_after_dash == old(self).inline_map_after_dash'''
+                        && final(self).inline_map_after_dash == old(self).inline_map_after_dash && final(self).quote_all == old(self).quote_all && final(self).yaml_12 == old(self).yaml_12'''
 _replace_item('impl YamlSerializer/fn write_space_if_pending',
     dict(src=SR, path='impl YamlSerializer/fn write_space_if_pending', props=['C12', 'C20', 'C01'],
          rewrites=[(r'-> Result<\(\)>', '-> Result<(), SerError>', 1, 'R6')],
@@ -390,4 +390,101 @@ ITEMS += [
                    'r is Ok && old(self).after_dash_depth is Some ==> old(self).indent_step * r->Ok_0.depth > old(self).indent_step * old(self).after_dash_depth->0 + 2'),
                   ('shape', 'r is Ok ==> !r->Ok_0.flow && r->Ok_0.first && r->Ok_0.ser.after_dash_depth is None')],
          canaries=['C20:fields_of_a_struct_variant_below_a_dash_start_right_of_the_variant_name_for_every_indent_step']),
+]
+
+# ---- the WHOLE of serialize_newtype_variant (C12 "enum payload", C20 flow): `value.serialize(&mut *self)` is an opaque call that may do anything
+# to the serializer; `write_plain_or_quoted` (proved in unit `quoting`) appends a token that depends on the options and the name only ----
+_ALL_HINTS = '''final(self).pending_space_after_colon == old(self).pending_space_after_colon && final(self).at_line_start == old(self).at_line_start
+                        && final(self).doc_started == old(self).doc_started && ''' + _LAYOUT_FRAME
+ITEMS += [
+    dict(src=SR, path='impl YamlSerializer/fn write_plain_or_quoted', trusted=True, props=[],
+         rewrites=[(r'-> Result<\(\)>', '-> Result<(), SerError>', 1, 'R6')],
+         # assumed here; in unit `quoting` the token itself is under contract (write_plain_or_quoted: C12 clauses, frame same_pos)
+         ensures=[('assumed:a_token_determined_by_the_options_and_the_text_is_appended', 'r is Ok ==> final(self).out.text() == old(self).out.text() + pq_text(old(self).quote_all, old(self).yaml_12, old(self).in_flow, s@)'),
+                  ('assumed:frame', _ALL_HINTS)]),
+    dict(src=SR, path='impl Serializer for &mut YamlSerializer/fn serialize_newtype_variant', id='YamlSerializer::serialize_newtype_variant#whole', props=['C12', 'C20', 'C01'],
+         impl_header="impl<'b> YamlSerializer<'b>",
+         fragment=r'(?<=value: &T,\n    \) -> Result<\(\)> \{).*(?=\}\s*$)', fragment_flags='S',
+         wrapper="fn newtype_variant_whole(&mut self, variant: &'static str, value: &SerVal) -> Result<(), SerError> { {FRAG} }",
+         pre_rewrites=[(r'value\.serialize\(&mut \*self\)', 'ser_value(value, self)', None, 'R8')],
+         requires=[('assumed:nesting_depth_below_usize_max', '''old(self).depth < usize::MAX - 1 && (old(self).after_dash_depth is Some ==> old(self).after_dash_depth->0 < usize::MAX - 1)
+                        && (old(self).current_map_depth is Some ==> old(self).current_map_depth->0 < usize::MAX - 1)'''),
+                   ('indent_fits', '''old(self).indent_step * (old(self).depth + 1) <= usize::MAX
+                        && (old(self).current_map_depth is Some ==> old(self).indent_step * (old(self).current_map_depth->0 + 1) <= usize::MAX)''')],
+         proofs=[dict(at='start', ghost=True, text='let ghost t0 = self.out.text(); let ghost pq = pq_text(self.quote_all, self.yaml_12, self.in_flow, variant@);'),
+                 dict(at='start', text='''reveal_strlit("{"); reveal_strlit("}"); reveal_strlit(": "); reveal_strlit(":");
+                      let st = self.indent_step as int; let d0 = self.depth as int; assert(st * d0 <= st * (d0 + 1)) by(nonlinear_arith) requires st >= 0, d0 >= 0;'''),
+                 dict(before_re=r'ser_value\(value, self\)\?;', label='C20:a_newtype_variant_inside_a_flow_collection_is_a_flow_mapping_of_one_entry_brace_name_colon_space',
+                      text="assert(self.out.text() =~= (if old(self).pending_space_after_colon { t0.push(' ') } else { t0 }).push('{') + pq + seq![':', ' ']);"),
+                 dict(after_re=r'ser_value\(value, self\)\?;', ghost=True, text='let ghost t_mid = self.out.text();'),
+                 dict(before_re=r'return Ok\(\(\)\);', label='C20:the_flow_mapping_of_a_newtype_variant_is_closed_right_after_its_value',
+                      text="assert(self.out.text() =~= t_mid.push('}'));"),
+                 dict(before_re=r'let res = ser_value\(value, self\);', nth=1, label='C12:a_variant_name_in_value_position_starts_a_line_of_its_own_one_level_below_the_mapping_it_belongs_to',
+                      text='''assert(old(self).doc_started ==> self.out.text() =~= t0.push('\\n') + spaces(old(self).indent_step * ((match old(self).current_map_depth { Some(d) => d, None => old(self).depth }) + 1)) + pq + seq![':']);
+                              assert(self.pending_space_after_colon && !self.at_line_start && !self.pending_inline_map
+                                     && self.current_map_depth == Some(((match old(self).current_map_depth { Some(d) => d, None => old(self).depth }) + 1) as usize));'''),
+                 dict(before_re=r'let res = ser_value\(value, self\);', nth=2, label='C12:the_payload_of_a_variant_below_a_dash_is_laid_out_below_the_variant_name_not_below_the_dash',
+                      text='''assert(self.pending_space_after_colon && !self.at_line_start && !self.pending_inline_map && self.after_dash_depth is None
+                                     && self.current_map_depth == Some((old(self).after_dash_depth->0 + 1) as usize));
+                              assert(!old(self).at_line_start ==> self.out.text() =~= t0 + pq + seq![':']);''')],
+         ensures=[('C12:after_the_payload_the_mapping_depth_of_the_enclosing_node_is_restored',
+                   'old(self).in_flow == 0 && (old(self).pending_space_after_colon || old(self).after_dash_depth is Some) ==> final(self).current_map_depth == old(self).current_map_depth')],
+         canaries=['C12:after_the_payload_the_mapping_depth_of_the_enclosing_node_is_restored']),
+]
+
+# ---- the WHOLE of serialize_struct_variant over the real StructVariantSer (F33 flow form, value position, below a dash / top level) ----
+ITEMS += [
+    dict(src=SR, path='impl Serializer for &mut YamlSerializer/fn serialize_struct_variant', id='YamlSerializer::serialize_struct_variant#whole', props=['C12', 'C20', 'C01'],
+         impl_header="impl<'b> YamlSerializer<'b>",
+         fragment=r'(?<=_len: usize,\n    \) -> Result<Self::SerializeStructVariant> \{).*(?=\}\s*$)', fragment_flags='S',
+         wrapper="fn struct_variant_whole<'a>(&'a mut self, variant: &'static str, _len: usize) -> Result<StructVariantSer<'a, 'b>, SerError> { {FRAG} }",
+         requires=[('assumed:valid_options', 'old(self).indent_step >= 1'),
+                   ('assumed:nesting_depth_below_usize_max', '''old(self).depth < usize::MAX - 3 && (old(self).after_dash_depth is Some ==> old(self).after_dash_depth->0 < usize::MAX - 3)
+                        && (old(self).current_map_depth is Some ==> old(self).current_map_depth->0 < usize::MAX - 3)'''),
+                   ('indent_fits', '''old(self).indent_step * (old(self).depth + 1) <= usize::MAX
+                        && (old(self).current_map_depth is Some ==> old(self).indent_step * (old(self).current_map_depth->0 + 1) <= usize::MAX)''')],
+         proofs=[dict(at='start', ghost=True, text='let ghost t0 = self.out.text(); let ghost pq = pq_text(self.quote_all, self.yaml_12, self.in_flow, variant@);'),
+                 dict(at='start', text='''reveal_strlit("{"); reveal_strlit(": {"); reveal_strlit(":\\n");
+                      let st = self.indent_step as int; let d0 = self.depth as int; assert(st * d0 <= st * (d0 + 1)) by(nonlinear_arith) requires st >= 0, d0 >= 0;''')],
+         ensures=[('C20:a_struct_variant_inside_a_flow_collection_opens_a_flow_mapping_whose_one_value_is_a_flow_mapping',
+                   '''r is Ok && old(self).in_flow > 0 ==> ({ let q = r->Ok_0; q.flow && q.first
+                        && q.ser.out.text() =~= (if old(self).pending_space_after_colon { t0_of(old(self)).push(' ') } else { t0_of(old(self)) }).push('{') + pq_of(old(self), variant@) + seq![':', ' ', '{'] })'''),
+                  ('C12:a_struct_variant_in_value_position_starts_a_line_of_its_own_and_its_fields_are_one_level_deeper_than_its_name',
+                   '''r is Ok && old(self).in_flow == 0 && old(self).pending_space_after_colon ==> ({ let q = r->Ok_0; let cm = (match old(self).current_map_depth { Some(d) => d, None => old(self).depth });
+                        !q.flow && q.first && q.depth == cm + 2 && q.ser.at_line_start && !q.ser.pending_space_after_colon
+                        && (old(self).doc_started ==> q.ser.out.text() =~= t0_of(old(self)).push('\\n') + spaces(old(self).indent_step * (cm + 1)) + pq_of(old(self), variant@) + seq![':', '\\n']) })'''),
+                  ('C12:at_the_top_level_the_fields_are_one_level_deeper_than_the_variant_name',
+                   '''r is Ok && old(self).in_flow == 0 && !old(self).pending_space_after_colon && old(self).after_dash_depth is None
+                        ==> r->Ok_0.depth == old(self).depth + 1 && r->Ok_0.ser.at_line_start && !r->Ok_0.flow''')],
+         canaries=['C12:a_struct_variant_in_value_position_starts_a_line_of_its_own_and_its_fields_are_one_level_deeper_than_its_name']),
+]
+
+# ---- tuple variants: each field (whole body, `value.serialize(..)` opaque) and the end, over the real TupleVariantSer ----
+SUBST += [(r"TupleVariantSer<'a, 'b, W: Write>", "TupleVariantSer<'a, 'b>")]
+ITEMS += [
+    dict(src=SR, path='struct TupleVariantSer'),
+    dict(src=SR, path='impl SerializeTupleVariant for TupleVariantSer/fn serialize_field', id='TupleVariantSer::serialize_field#whole', props=['C12', 'C20', 'C01'],
+         impl_header="impl<'a, 'b> TupleVariantSer<'a, 'b>",
+         fragment=r'(?<=fn serialize_field<T: \?Sized \+ Serialize>\(&mut self, value: &T\) -> Result<\(\)> \{).*(?=\}\s*$)', fragment_flags='S',
+         wrapper='fn tuple_variant_field_whole(&mut self, value: &SerVal) -> Result<(), SerError> { {FRAG} }',
+         pre_rewrites=[(r'value\.serialize\(&mut \*self\.ser\)', 'ser_value(value, &mut *self.ser)', None, 'R8')],
+         requires=[('indent_fits', 'old(self).ser.indent_step * old(self).depth <= usize::MAX')],
+         proofs=[dict(at='start', ghost=True, text='let ghost t0 = self.ser.out.text(); let ghost first0 = self.first;'),
+                 dict(at='start', text='reveal_strlit(", "); reveal_strlit("- ");'),
+                 dict(before_re=r'return ser_value\(value, &mut \*self\.ser\);', label='C20:fields_of_a_flow_tuple_variant_are_separated_by_a_comma_and_a_space_and_the_first_follows_the_bracket',
+                      text="assert(self.ser.out.text() =~= (if first0 { t0 } else { t0.push(',').push(' ') }) && !self.first);"),
+                 dict(before_re=r'ser_value\(value, &mut \*self\.ser\)\s*\}', label='C12:every_field_of_a_block_tuple_variant_gets_its_dash_at_the_depth_of_the_variant_body_and_continues_on_that_line',
+                      text='''assert(old(self).ser.at_line_start && old(self).ser.doc_started ==> self.ser.out.text() =~= t0 + spaces(old(self).ser.indent_step * old(self).depth) + seq!['-', ' ']);
+                              assert(!self.ser.at_line_start && self.ser.after_dash_depth == Some(self.depth) && self.ser.pending_inline_map && self.depth == old(self).depth);''')],
+         ensures=[('the_result_of_the_value_is_passed_on', 'true')]),
+    dict(src=SR, path='impl SerializeTupleVariant for TupleVariantSer/fn end', id='TupleVariantSer::end#whole', props=['C20', 'C12', 'C01'],
+         fragment=r'(?<=fn end\(self\) -> Result<\(\)> \{).*(?=\}\s*$)', fragment_flags='S',
+         wrapper="fn tuple_variant_end_whole<'b>(ser: &mut YamlSerializer<'b>, flow: bool) -> Result<(), SerError> { {FRAG} }",
+         pre_rewrites=[(r'\bself\.ser\.', 'ser.', None, 'R9'), (r'\bself\.flow\b', 'flow', None, 'R9')],
+         proofs=[dict(at='start', text='reveal_strlit("]}");')],
+         ensures=[('C20:a_flow_tuple_variant_closes_its_bracket_and_its_brace_and_a_block_one_writes_nothing_at_its_end',
+                   "r is Ok ==> final(ser).out.text() =~= (if flow { old(ser).out.text().push(']').push('}') } else { old(ser).out.text() })"),
+                  ('C12:after_a_block_tuple_variant_no_dash_hint_is_left_for_the_next_sibling',
+                   'r is Ok && !flow ==> final(ser).last_value_was_block && !final(ser).pending_inline_map && final(ser).after_dash_depth is None && !final(ser).inline_map_after_dash')],
+         canaries=['C20:a_flow_tuple_variant_closes_its_bracket_and_its_brace_and_a_block_one_writes_nothing_at_its_end']),
 ]
